@@ -241,7 +241,6 @@ var vTheIdP = &vIdP{}
 func vInstallIdP() *vIdP {
 	vKeys()
 	requests.DefaultHTTPClient = &http.Client{Transport: vTheIdP, Timeout: 5 * time.Second}
-	http.DefaultTransport = vTheIdP
 	http.DefaultClient = &http.Client{Transport: vTheIdP, Timeout: 5 * time.Second}
 	return vTheIdP
 }
@@ -572,6 +571,7 @@ type vEnvCfg struct {
 	mod   func(*options.Options)
 	post  func(*vEnv) // after construction
 	optional bool     // validation failure is not fatal
+	keepUpstream bool // keep the real upstream proxy (C17) instead of the recording handler
 }
 
 var vTmpDir string
@@ -642,7 +642,9 @@ func vNewEnv(t *testing.T, c vEnvCfg) *vEnv {
 		t.Fatalf("NewOAuthProxy: %v", err)
 	}
 	e := &vEnv{t: t, opts: o, p: p, idp: idp, upstream: &vUpstream{}}
-	p.upstreamProxy = e.upstream
+	if !c.keepUpstream {
+		p.upstreamProxy = e.upstream
+	}
 	if c.redis {
 		e.redis = vNewRedis()
 		p.sessionStore = persistence.NewManager(&redisstore.SessionStore{Client: e.redis}, &o.Cookie)
